@@ -22,6 +22,9 @@ structure TablesOk : Prop where
   regInFilter : regionCatch "inFilter" = some ""
   regCallback : regionCatch "callback" = some ""
   encode : encodeStrict = false
+  /-- no log call on the read/write path formats server text before handing it to the logger
+  (supybot's `Logger._log` formats every record: pre-formatted text is formatted twice) -/
+  logs : Gen.preformattedLogCalls = []
 
 instance : Decidable TablesOk :=
   decidable_of_iff
@@ -31,13 +34,13 @@ instance : Decidable TablesOk :=
      Gen.ircCallbackFirewalled.lookup "inFilter" = some true ∧ Gen.ircCallbackFirewalled.lookup "outFilter" = some true ∧
      Gen.firewallCatch = "Exception" ∧ Gen.firewallHandlerCatch = "Exception" ∧ Gen.driversRunCatch = "" ∧
      malformedCaught = true ∧ regionCatch "addMsg" = some "" ∧ regionCatch "inFilter" = some "" ∧
-     regionCatch "callback" = some "" ∧ encodeStrict = false)
-    ⟨fun ⟨a, b, c, d, e, f, x, y, g, h, i, j, k, l, m, n⟩ =>
-      ⟨a, b, c, d, e, f, by simp [passHandler, x], by simp [passHandler, y], g, h, i, j, k, l, m, n⟩,
-     fun ⟨a, b, c, d, e, f, x, y, g, h, i, j, k, l, m, n⟩ =>
+     regionCatch "callback" = some "" ∧ encodeStrict = false ∧ Gen.preformattedLogCalls = [])
+    ⟨fun ⟨a, b, c, d, e, f, x, y, g, h, i, j, k, l, m, n, o⟩ =>
+      ⟨a, b, c, d, e, f, by simp [passHandler, x], by simp [passHandler, y], g, h, i, j, k, l, m, n, o⟩,
+     fun ⟨a, b, c, d, e, f, x, y, g, h, i, j, k, l, m, n, o⟩ =>
       ⟨a, b, c, d, e, f,
        by unfold passHandler at x; split at x <;> simp_all,
-       by unfold passHandler at y; split at y <;> simp_all, g, h, i, j, k, l, m, n⟩⟩
+       by unfold passHandler at y; split at y <;> simp_all, g, h, i, j, k, l, m, n, o⟩⟩
 
 /-! ### exceptions -/
 
